@@ -38,7 +38,10 @@ M(o, mm, as) == [k |-> "mcall", o |-> o, m |-> mm, as |-> as]
 Make(id, x, e) == [k |-> "make", id |-> id, d |-> 10 * id, n |-> x, site |-> 0, e |-> e]
 Set(id, x, e) == [k |-> "set", id |-> id, n |-> x, site |-> 0, e |-> e]
 ExprS(id, e) == [k |-> "expr", id |-> id, e |-> e]
-Shout(id, e) == ExprS(id, G("shout", <<e>>))
+\* IOEnv.DEAD = "1": the site's expression is the initialiser of a variable nobody reads (`make dd<id> get <expr>`)
+\* instead of being printed: whether it fails at run time must not depend on the value being used (C03)
+DeadMode == "DEAD" \in DOMAIN IOEnv /\ IOEnv.DEAD = "1"
+Shout(id, e) == IF DeadMode THEN [k |-> "make", id |-> id, d |-> 10 * id, n |-> "dd", site |-> 0, e |-> e] ELSE ExprS(id, G("shout", <<e>>))
 Ret(id, e) == [k |-> "ret", id |-> id, e |-> e]
 If(id, c, t) == [k |-> "if", id |-> id, c |-> c, t |-> t, f |-> <<>>]
 
